@@ -16,7 +16,7 @@ LEVEL_TEXT = ("Static structural proof of necessary conditions: (R14.1) the 17 s
               "(schema, entry, attribute) call made by the runner; (R14.3) the three per-section passes iterate the "
               "section enum itself; (R14.4) error-context push/pop balanced. That released schemas pass and that a "
               "seeded fault is detected at every position are NOT decided.")
-LEVEL_EXTRA = "Added after the seeded evaluation: (R14.5) known/unknown of an attribute is decided against the valid-attribute table of the entry's own section. (R14.6) no issue list is discarded inside the compliance modules."
+LEVEL_EXTRA = "Added after the seeded evaluation: (R14.5) known/unknown of an attribute is decided against the valid-attribute table of the entry's own section. (R14.6) no issue list is discarded inside the compliance modules. (R14.7) attribute validators are skipped for attributes the entry's section does not declare."
 
 SIG = ["hed_schema", "tag_entry", "attribute_name"]
 
